@@ -33,7 +33,8 @@ REQUIRED = ["Sqfs.C19." + t for t in (
     "no_leak", "copy_then_release_restores", "refcount_invariant_reading", "refcount_exact", "exH_balanced", "exHX_balanced", "copy_equiv", "copy_same_buffer_sizes", "copy_independent", "copy_buffers_disjoint", "constructed_balanced", "grab_balanced",
     "copy_equiv_idTable", "copy_equiv_fragTable", "copy_fail_restores", "ops_release_safe", "copy_independent_mixed",
     "copy_equiv_dataReader", "copy_equiv_metaReader", "table_fill_is_adds", "envHeap_balanced",
-    "rbtree_copy_equiv", "rbtree_built_wellformed", "copy_equiv_dirCache", "array_copy_equiv", "strtable_copy_equiv")]
+    "rbtree_copy_equiv", "rbtree_built_wellformed", "copy_equiv_dirCache", "array_copy_equiv", "strtable_copy_equiv",
+    "rbtree_pool_copy_independent", "copy_equiv_dataReaderX", "copy_independent_interleaved_partial")]
 COMPS = ["gzip", "xz", "lzma", "lz4", "zstd"]
 ENV_KINDS = ("meta", "dir", "data", "xattr")
 WRAP = "-Wl,--wrap=malloc,--wrap=calloc,--wrap=realloc,--wrap=dup,--wrap=deflateInit2_,--wrap=inflateInit_,--wrap=ZSTD_createCCtx,--wrap=mmap"
@@ -175,6 +176,11 @@ CACHE_ENDINGS = {
     "short-then-fragment": ["read /short.bin 0 100", "read /frag2.bin 0 10"],
     "fragment-full-short": ["read /frag3.bin 100 50", "read /full.bin 0 8192", "read /short.bin 10 50"],
     "full-then-fragment": ["read /full.bin 0 100", "frag /frag3.bin"],
+    # the other entry points that touch the caches (C10's OpX): a stream whose tail comes out of the fragment cache, and a reload
+    # of the fragment table (drops the cached fragment block) followed by a fragment access
+    "stream-tail": ["stream /d1/d2/tail.bin 9", "read /short.bin 0 10"],
+    "reload-then-fragment": ["frag /frag2.bin", "read /full.bin 0 10", "reload", "stream /frag3.bin 2"],
+    "reload-only": ["read /small.txt 0 10", "reload"],
 }
 PATHS_D = ["/", "/d1", "/d1/d2", "/e", "/nope", "/small.txt"]
 # directory readers: (directories, other paths, (start directory, relative path) pairs, inode numbers worth asking for) per image family
@@ -231,7 +237,8 @@ def gen_op(r, kind, sizes):
     if kind == "data":
         p = r.choice(PATHS_F)
         return r.choice(["read %s %d %d" % (p, r.choice([0, 1, 100, 8000, 8192, 8193, 16384, 20000, 30000]), r.choice([1, 100, 5000, 9000, 40000])),
-                         "read %s %d %d" % (p, r.randint(0, 30000), r.randint(1, 20000)), "block %s %d" % (p, r.randint(0, 4)), "frag " + p])
+                         "read %s %d %d" % (p, r.randint(0, 30000), r.randint(1, 20000)), "block %s %d" % (p, r.randint(0, 4)), "frag " + p,
+                         "stream %s %d" % (p, r.choice([1, 2, 3, 9])), r.choice(["reload", "frag " + p])])
     if kind == "xattr":
         top = sizes.get("xattr_ids", 4)
         pick = lambda: r.choice([0, top - 1, top, r.randint(0, top), r.randint(max(0, top - 100), top)]) if top > 4 else r.randint(0, 4)
